@@ -250,7 +250,7 @@ def allowed(o, op):
 class C10(GinProp):
     pid = "C10"
     title = "turn protocol: a move is accepted iff the turn allows it; transitions; rejected moves change nothing"
-    fields = ("turn", "complete")
+    fields = ("turn", "complete", "kc")
     compare_results = True
     probes = 5
     rule = ("at every state of random games all five entry points are probed (pass, draw stock/discard, discard of held / "
@@ -292,8 +292,26 @@ class C10(GinProp):
                     exp = [OPP[w] + "-draws"]
                 if o["turn"] not in exp:
                     why.append(f"step {e.i}: after {op_str(e.op)} on {p['turn']} the turn is {o['turn']}, expected {exp}"); break
-            if e.kind == "act" and acc:
-                pass
+            if e.kind == "act" and acc and not e.oi["complete"] and kind(e.oi["turn"]) == "knock" and not isinstance(e.oi.get("kc"), str):
+                # the knock offer: exactly the arrangements of <= 3 melds within ten (or one gin arrangement)
+                o = e.oi
+                hand = o[who(o["turn"])]
+                legal = gin.all_melds(hand)
+                exp = set()
+                for k in range(0, 4):
+                    for comb in itertools.combinations(legal, k):
+                        cards = [x for m in comb for x in m]
+                        if len(set(cards)) != len(cards):
+                            continue
+                        d = gin.dw([x for x in hand if x not in cards])
+                        if d <= 10:
+                            exp.add((d, frozenset(comb)))
+                got = canon_kc(o["kc"])
+                zero = {x for x in exp if x[0] == 0 and x[1]}
+                ok = (len(got) == 1 and got <= zero) if zero else (got == exp)
+                if not ok:
+                    why.append(f"step {e.i}: knock candidates offered for {hand} are not exactly the arrangements within ten "
+                               f"(missing {list(exp - got)[:2]}, unexpected {list(got - exp)[:2]})"); break
         return why
 
 
